@@ -78,6 +78,7 @@ func ReadFile(r io.Reader) (File, []string, error) {
 			en.Comment = strings.Join(nextCommentLines, "\n")
 			f.Enums = append(f.Enums, en)
 			nextRecordBitFlags = false
+			skipDefinitionTrailer(tr)
 		case tokenKindReadOnly:
 			nextRecordReadOnly = true
 			if !tr.Next() {
@@ -101,6 +102,7 @@ func ReadFile(r io.Reader) (File, []string, error) {
 			st.ReadOnly = nextRecordReadOnly
 			f.Structs = append(f.Structs, st)
 			nextRecordReadOnly = false
+			skipDefinitionTrailer(tr)
 		case tokenKindMessage:
 			if nextRecordBitFlags {
 				return f, warnings, readError(tk, "messages may not use bitflags")
@@ -112,6 +114,7 @@ func ReadFile(r io.Reader) (File, []string, error) {
 			msg.Comment = strings.Join(nextCommentLines, "\n")
 			msg.OpCode = nextRecordOpCode
 			f.Messages = append(f.Messages, msg)
+			skipDefinitionTrailer(tr)
 		case tokenKindUnion:
 			if nextRecordBitFlags {
 				return f, warnings, readError(tk, "unions may not use bitflags")
@@ -123,6 +126,7 @@ func ReadFile(r io.Reader) (File, []string, error) {
 			union.Comment = strings.Join(nextCommentLines, "\n")
 			union.OpCode = nextRecordOpCode
 			f.Unions = append(f.Unions, union)
+			skipDefinitionTrailer(tr)
 		case tokenKindConst:
 			if nextRecordBitFlags {
 				return f, warnings, readError(tk, "consts may not use bitflags")
@@ -338,6 +342,16 @@ func readDeprecated(tr *tokenReader) (string, error) {
 	msg, _ := strconv.Unquote(string(toks[2].concrete))
 	optNewline(tr)
 	return msg, nil
+}
+
+// skipDefinitionTrailer consumes comments that follow a definition's closing curly
+// on the same line, so that they are not taken for documentation of the next definition.
+func skipDefinitionTrailer(tr *tokenReader) {
+	if tr.keepNextToken && tr.Token().kind == tokenKindCloseCurly {
+		// the closing curly was pushed back by the body reader
+		tr.Next()
+	}
+	skipEndOfLineComments(tr)
 }
 
 func skipEndOfLineComments(tr *tokenReader) {
